@@ -536,4 +536,152 @@ theorem updTL_intact (t : Nat) : ∀ (d o : TSlots α) (c : Nat),
         · exact Or.inr ⟨u, h1, Or.inr (by omega)⟩
 end
 
+/-! ### the write logs of intersection and difference contain new objects only -/
+
+section wl
+variable [DecidableEq α]
+
+omit [DecidableEq α] in
+theorem FreshO_zero (x : Option (TVal α)) : FreshO 0 x := fun _ _ _ _ => Nat.zero_le _
+omit [DecidableEq α] in
+theorem FreshL_zero (l : TSlots α) : FreshL 0 l := fun _ _ => Nat.zero_le _
+
+theorem interTO_next_le (lv : Int) (x : Option (TVal α)) (y : Option (Val α)) (c : Nat) :
+    c ≤ (interTO lv x y c).2 := (interTO_fresh lv 0 x y c (FreshO_zero x) (Nat.zero_le _)).1
+theorem interTL_next_le (lv : Int) (a : TSlots α) (b : Slots α) (c : Nat) :
+    c ≤ (interTL lv a b c).2 := (interTL_fresh lv 0 a b c (FreshL_zero a) (Nat.zero_le _)).1
+
+mutual
+theorem interWO_new (t : Nat) (lv : Int) : ∀ (x : Option (TVal α)) (y : Option (Val α)) (c : Nat),
+    ∀ w ∈ interWO t lv x y c, w = t ∨ c ≤ w
+  | none, _, c => by simp [interWO]
+  | some _, none, c => by simp [interWO]
+  | some (.leaf ts a), some (.leaf b), c => by
+      intro w hw
+      by_cases e : b = a <;> simp [interWO, eraseV, e] at hw
+      exact Or.inl hw
+  | some (.leaf ts a), some (.dict y), c => by
+      intro w hw
+      simp [interWO, eraseV] at hw
+      exact Or.inl hw
+  | some (.dict t' x), some (.leaf b), c => by
+      intro w hw
+      simp [interWO, eraseV] at hw
+      exact Or.inl hw
+  | some (.dict t' x), some (.dict y), c => by
+      intro w hw
+      by_cases e : y = eraseL x
+      · simp [interWO, eraseV, e] at hw
+      · by_cases h1 : lv = 1
+        · simp [interWO, eraseV, e, h1] at hw; exact Or.inl hw
+        · by_cases h0 : lv - 1 = 0
+          · omega
+          · simp only [interWO, eraseV, Val.dict.injEq, e, if_false, h1, h0, List.mem_append,
+              List.mem_singleton] at hw
+            rcases hw with hw | hw
+            · have hc := (copyL_fresh x (c + 1)).1
+              rcases interWL_new c (lv - 1) (copyL x (c + 1)).1 y (copyL x (c + 1)).2 w hw with h | h
+              · exact Or.inr (by omega)
+              · exact Or.inr (by omega)
+            · exact Or.inl hw
+  termination_by _ y _ => sizeOf y
+theorem interWL_new (t : Nat) (lv : Int) : ∀ (a : TSlots α) (b : Slots α) (c : Nat),
+    ∀ w ∈ interWL t lv a b c, w = t ∨ c ≤ w
+  | [], _, c => by simp [interWL]
+  | x :: r, [], c => by
+      intro w hw
+      rw [interWL] at hw
+      simp only [List.mem_filterMap] at hw
+      obtain ⟨o, _, ho⟩ := hw
+      cases o with
+      | none => simp at ho
+      | some v => simp at ho; exact Or.inl ho.symm
+  | x :: r, y :: r', c => by
+      intro w hw
+      rw [interWL, List.mem_append] at hw
+      rcases hw with hw | hw
+      · exact interWO_new t lv x y c w hw
+      · have := interTO_next_le lv x y c
+        rcases interWL_new t lv r r' _ w hw with h | h
+        · exact Or.inl h
+        · exact Or.inr (by omega)
+  termination_by _ b _ => sizeOf b
+end
+
+theorem interWFold_new (lv : Int) (t c0 : Nat) (ht : c0 ≤ t) : ∀ (ds : List (Slots α)) (l : TSlots α) (c : Nat),
+    c0 ≤ c → ∀ w ∈ interWFold lv t l ds c, c0 ≤ w
+  | [], _, _, _ => by simp [interWFold]
+  | d :: ds, l, c, hc => by
+      intro w hw
+      by_cases h0 : lv = 0
+      · simp only [interWFold, h0, if_true] at hw
+        split at hw
+        · exact interWFold_new 0 t c0 ht ds l c hc w hw
+        · simp at hw
+      · simp only [interWFold, h0, if_false, List.mem_append] at hw
+        rcases hw with hw | hw
+        · rcases interWL_new t lv l d c w hw with h | h <;> omega
+        · split at hw
+          · exact interWFold_new lv t c0 ht ds _ _ (by have := interTL_next_le lv l d c; omega) w hw
+          · simp at hw
+
+section diff
+variable (truthy : α → Bool)
+
+theorem diffTO_next_le (lv : Int) (x : Option (TVal α)) (y : Option (Val α)) (c : Nat) :
+    c ≤ (diffTO truthy lv x y c).2 := (diffTO_from truthy lv x y c).1
+
+mutual
+theorem diffWV_new (lv : Int) : ∀ (v : TVal α) (w : Val α) (c : Nat), ∀ u ∈ diffWV truthy lv v w c, c ≤ u
+  | .dict t x, .dict y, c => by
+      intro u hu
+      simp only [diffWV] at hu
+      split at hu
+      · simp at hu
+      · split at hu
+        · simp at hu
+        · rcases diffWL_new c lv x y (c + 1) u hu with h | h <;> omega
+  | .dict t x, .leaf b, c => by simp [diffWV]
+  | .leaf ts a, w, c => by simp [diffWV]
+theorem diffWO_new (t : Nat) (lv : Int) : ∀ (x : Option (TVal α)) (y : Option (Val α)) (c : Nat),
+    ∀ u ∈ diffWO truthy t lv x y c, u = t ∨ c ≤ u
+  | none, _, c => by simp [diffWO]
+  | some v, none, c => by simp [diffWO]
+  | some v, some w, c => by
+      intro u hu
+      simp only [diffWO] at hu
+      split at hu
+      · simp at hu
+      · split at hu
+        · rw [List.mem_append] at hu
+          rcases hu with hu | hu
+          · exact Or.inr (diffWV_new (lv - 1) v w c u hu)
+          · split at hu <;> simp_all
+        · simp at hu; exact Or.inl hu
+theorem diffWL_new (t : Nat) (lv : Int) : ∀ (a : TSlots α) (b : Slots α) (c : Nat),
+    ∀ u ∈ diffWL truthy t lv a b c, u = t ∨ c ≤ u
+  | [], _, c => by simp [diffWL]
+  | x :: r, [], c => by
+      intro u hu
+      rw [diffWL, List.mem_append] at hu
+      rcases hu with hu | hu
+      · exact diffWO_new t lv x none c u hu
+      · have := diffTO_next_le truthy lv x none c
+        rcases diffWL_new t lv r [] _ u hu with h | h
+        · exact Or.inl h
+        · exact Or.inr (by omega)
+  | x :: r, y :: r', c => by
+      intro u hu
+      rw [diffWL, List.mem_append] at hu
+      rcases hu with hu | hu
+      · exact diffWO_new t lv x y c u hu
+      · have := diffTO_next_le truthy lv x y c
+        rcases diffWL_new t lv r r' _ u hu with h | h
+        · exact Or.inl h
+        · exact Or.inr (by omega)
+end
+end diff
+
+end wl
+
 end Lena.C07
